@@ -216,21 +216,23 @@ func discharge(file string, cfg *solverCfg) solverResult {
 	// portfolio
 	ctx, cancel := context.WithCancel(context.Background())
 	defer cancel()
-	ch := make(chan solverResult, 3)
-	solvers := []string{"cvc5", "z3", "z3-new"}
+	// each z3 version runs under two random seeds: quantifier instantiation is seed sensitive, and an
+	// obligation that one seed proves in a fraction of a second can time out under another
+	type member struct {
+		solver string
+		dseed  int
+	}
+	members := []member{{"cvc5", 0}, {"z3", 0}, {"z3", 5}, {"z3-new", 17}, {"z3-new", 41}}
+	ch := make(chan solverResult, len(members))
 	n := 0
-	for _, s := range solvers {
-		if s == "z3-new" && (first.status == "unsat" || first.status == "sat") {
+	for _, m := range members {
+		if m.solver == "z3-new" && (first.status == "unsat" || first.status == "sat") {
 			continue
 		}
 		n++
-		go func(s string) {
-			seed := cfg.seed
-			if s == "z3-new" {
-				seed = cfg.seed + 17
-			}
-			ch <- runSolver(ctx, s, file, cfg.fullMs, seed)
-		}(s)
+		go func(m member) {
+			ch <- runSolver(ctx, m.solver, file, cfg.fullMs, cfg.seed+m.dseed)
+		}(m)
 	}
 	var best solverResult
 	best = first
